@@ -41,162 +41,96 @@ def run(ctx):
     ctx.clause("C14.4 CRC routine reads every input byte exactly within bounds (skeleton execution)")
     ctx.clause("C14.5 a stored CRC is never ignored: the header parser sets has_crc whenever field 4 is present")
     _crc_presence(ctx)
+    # the four loaders are executed abstractly per scenario (header parser, positioned reads, CRC, codecs,
+    # allocator and page decoders hooked): what is checksummed, when verification applies, and what a
+    # mismatch lets through are read from the recorded events - helpers with out-parameters, merged or
+    # split conditions and early returns make no difference
+    from ..rules import loaders as LD, sem
+    pt_ = P.enum("carquet_page_type")
+    st_ = P.enum("carquet_status")
+    MISMATCH = st_.get("CARQUET_ERROR_CRC_MISMATCH")
+    if MISMATCH is None:
+        raise AnalysisBroken("CARQUET_ERROR_CRC_MISMATCH vanished")
+    codecs = P.enum("carquet_compression")
     nblocks = 0
+    ntr = 0
     for name in LOADERS:
         f = P.fn(name, PR)
-        # the CRC may be computed and compared in a static helper: helpers are expanded for reading the
-        # arguments, and a call to a helper that reaches carquet_crc32 counts as the CRC event in the CFG
-        view = P.inlined(f, 2, keep=tuple(sorted(set(CONSUMERS) | set(LOADERS) | {"decompress_page", "read_at"})))
-        cz = Canon(view)
-        crc_calls = view.calls("carquet_crc32")
         key0 = "%s:%s" % (PR, name)
-        if len(crc_calls) != 1:
-            ctx.ob("R6.crc-gate", "crc-call|" + key0, P.where(f.body),
-                   "%s computes the page CRC exactly once" % name, False, "found %d calls" % len(crc_calls)) \
-                if len(crc_calls) == 0 and not _crc_helpers(P, f) else \
-                ctx.inconclusive("R6.crc-gate", "crc-call|" + key0, P.where(f.body),
-                                 "%s computes the page CRC exactly once" % name, "found %d calls" % len(crc_calls))
-            continue
-        nblocks += 1
-        crc = crc_calls[0]
-        helpers = _crc_helpers(P, f)
+        ptype = pt_["CARQUET_PAGE_DICTIONARY"] if "dictionary" in name else pt_["CARQUET_PAGE_DATA"]
+        base_off = LD.DICT_OFF if "dictionary" in name else LD.DATA_OFF
+        verd = {k: None for k in ("crc-compare", "crc-size", "crc-bytes", "crc-mismatch-return", "crc-mismatch-clean",
+                                  "crc-dominates", "crc-enable")}
 
-        def has_crc_event(n_):
-            return any(x.k == "CallExpr" and (x.callee == "carquet_crc32" or x.callee in helpers) for x in n_.walk())
-        # the comparison: an if (of the loader itself) whose condition contains the CRC event or compares a
-        # local computed from it with the header's crc; one of its arms returns CRC_MISMATCH
-        crc_locals = set()
-        for n in f.body.walk():
-            if n.k == "DeclStmt":
-                for d_, init in zip(n.get("decls", []), n.c):
-                    if init is not None and has_crc_event(init):
-                        crc_locals.add(d_.get("d"))
-            elif is_assign(n) and n.c[0].strip().k == "DeclRefExpr" and has_crc_event(n.c[1]):
-                crc_locals.add(n.c[0].strip().get("d"))
-        cmp_if = None
-        for n in f.body.walk():
-            if n.k == "IfStmt":
-                cond = [x for x in n.c if x is not None][0]
-                if has_crc_event(cond) or any(x.k == "DeclRefExpr" and x.get("d") in crc_locals for x in cond.walk()):
-                    kids_ = [x for x in n.c if x is not None]
-                    arms = [("then", kids_[1])] + ([("else", kids_[2])] if len(kids_) > 2 else [])
-                    for an, arm_ in arms:
-                        if any(r.k == "ReturnStmt" and r.c and r.c[0] is not None and r.c[0].cv == 71 for r in arm_.walk()):
-                            cmp_if = (n, cond, an)
-        if cmp_if is None:
-            ctx.inconclusive("R6.crc-gate", "crc-compare|" + key0, P.where(f.body),
-                             "%s compares the computed CRC with page_header.crc" % name,
-                             "no if over the CRC result with a CRC_MISMATCH exit recognised")
-            continue
-        ifn, cond, mism_arm = cmp_if
-        # the value compared with the CRC is the header's crc field (also through locals / out-parameters)
-        tags = {}
-        for n in view.body.walk():
-            tgt_, rhs_ = None, None
-            if is_assign(n) and n.op == "=":
-                tgt_, rhs_ = src(n.c[0].strip_casts()), n.c[1]
-            elif n.k == "DeclStmt":
-                for d_, init in zip(n.get("decls", []), n.c):
-                    if init is not None:
-                        tg = set()
-                        if any(x.k == "CallExpr" and x.callee == "carquet_crc32" for x in init.walk()):
-                            tg.add("crc32")
-                        if any(x.k == "MemberExpr" and x.name == "crc" for x in init.walk()):
-                            tg.add("hdr")
-                        if tg:
-                            tags.setdefault(d_["n"], set()).update(tg)
-                continue
-            if tgt_ is None:
-                continue
-            if any(x.k == "CallExpr" and x.callee == "carquet_crc32" for x in rhs_.walk()):
-                tags.setdefault(tgt_, set()).add("crc32")
-            if any(x.k == "MemberExpr" and x.name == "crc" for x in rhs_.walk()):
-                tags.setdefault(tgt_, set()).add("hdr")
-
-        def side_tags(e_):
-            tg = set()
-            if any(x.k == "CallExpr" and x.callee == "carquet_crc32" for x in e_.walk()):
-                tg.add("crc32")
-            if any(x.k == "MemberExpr" and x.name == "crc" for x in e_.walk()):
-                tg.add("hdr")
-            tg |= tags.get(src(e_.strip_casts()), set())
-            return tg
-        vcmp = None
-        for n in view.body.walk():
-            if n.k == "BinaryOperator" and n.op in ("!=", "=="):
-                a_, b_ = side_tags(n.c[0]), side_tags(n.c[1])
-                if ("crc32" in a_ and "hdr" in b_) or ("hdr" in a_ and "crc32" in b_):
-                    vcmp = n
-        ctx.ob("R6.crc-gate", "crc-compare|" + key0, P.where(ifn),
-               "%s compares the computed CRC with page_header.crc" % name, vcmp is not None,
-               src(vcmp)[:100] if vcmp is not None else "no comparison of the computed CRC with the stored one found")
-        t = ("bin", "!=" if mism_arm == "then" else "==")
-        # CRC arguments: (stored bytes, compressed_page_size)
-        args = [cz(a) for a in crc.args()]
-        size_ok = any(s[0] == "member" and s[2] == "compressed_page_size" for s in subtrees(args[1]))
-        ctx.ob("R6.crc-gate", "crc-size|" + key0, P.where(ifn),
-               "the CRC is computed over compressed_page_size bytes", size_ok, show(args[1]))
-        # the same pointer is what the consumers read
-        ptr_t = args[0]
-        users = []
-        for c in view.calls("decompress_page"):
-            users.append(("decompress_page", cz(c.args()[1])))
-        ptr_ok = all(u[1] == ptr_t for u in users) and bool(users)
-        ctx.ob("R6.crc-gate", "crc-bytes|" + key0, P.where(ifn),
-               "the checksummed pointer is the one handed to decompress_page", ptr_ok,
-               "crc over %s; consumers read %s" % (show(ptr_t), [show(u[1]) for u in users]))
-        kids = [x for x in ifn.c if x is not None]
-        then = kids[1]
-        mism_is_then = t[1] == "!="
-        arm = then if mism_is_then else (kids[2] if len(kids) > 2 else None)
-        rets = [r for r in arm.walk() if r.k == "ReturnStmt"] if arm is not None else []
-        ok_ret = bool(rets) and all(r.c and r.c[0] is not None and r.c[0].cv == 71 for r in rets)
-        ctx.ob("R6.crc-gate", "crc-mismatch-return|" + key0, P.where(ifn),
-               "a CRC mismatch returns CARQUET_ERROR_CRC_MISMATCH", ok_ret)
-        no_consumer = arm is None or not any(c.k == "CallExpr" and c.callee in CONSUMERS for c in arm.walk())
-        ctx.ob("R6.crc-gate", "crc-mismatch-clean|" + key0, P.where(ifn),
-               "the mismatch arm reaches no consumer of page bytes", no_consumer and ok_ret)
-
-        # gate: every path to a consumer passes the comparison unless it took the false arm of
-        # has_crc / verify_checksums
-        cmp_nodes = set(x.i for x in cond.walk())
-
-        def is_cmp(e):
-            return e.i in cmp_nodes and ((e.k == "BinaryOperator" and e.op in ("!=", "==")) or
-                                         (e.k == "CallExpr" and e.callee in helpers))
-
-        def is_consumer(e):
-            if e.k == "CallExpr" and e.callee in CONSUMERS:
-                return True
-            # zero-copy hand-out: decoded_values = (view of page bytes)
-            if is_assign(e) and e.op == "=":
-                l = e.c[0].strip()
-                if l.k == "MemberExpr" and l.name == "decoded_values" and e.c[1].cv is None:
-                    r = e.c[1].strip_casts()
-                    return r.k != "CallExpr"
-            return False
-
-        def cut(B, si):
-            if B.cond is None or si != 1:
-                return False
-            return _mentions(B.cond, "has_crc") or _mentions(B.cond, "verify_checksums")
-        w = find_path_avoiding(f.cfg, is_cmp, is_consumer, cut)
-        ctx.ob("R6.crc-gate", "crc-dominates|" + key0, P.where(ifn),
-               "with has_crc && verify_checksums, %s cannot reach a consumer of page bytes without the "
-               "CRC comparison" % name, w is None,
-               "path: %s" % describe_path(f, f.cfg, w) if w else "")
-        # the enabling condition is exactly has_crc && verify_checksums: the conditions that govern the CRC
-        # call (enclosing branches and preceding early exits, in the loader or in the helper that holds the
-        # call) are evaluated as a truth table over the two flags
-        en = _enable_table(crc)
-        if en is None:
-            ctx.inconclusive("R6.crc-gate", "crc-enable|" + key0, P.where(ifn),
-                             "verification is enabled by has_crc && options.verify_checksums (nothing else)",
-                             "the conditions governing the CRC call mention something else")
-        else:
-            ctx.ob("R6.crc-gate", "crc-enable|" + key0, P.where(ifn),
-                   "verification is enabled by has_crc && options.verify_checksums (nothing else)",
-                   en == {(h_, v_): bool(h_ and v_) for h_ in (0, 1) for v_ in (0, 1)}, str(en))
+        def fail(k, msg):
+            if verd[k] is None:
+                verd[k] = msg
+        try:
+            for has_crc in (1, 0):
+                for verify in (1, 0):
+                    for stored, computed in ((0x1234, 0x1234), (0x1234, 0x1235), (0, 0), (0, 7), (-5, 0xFFFFFFFB)):
+                        for codec in (codecs["CARQUET_COMPRESSION_UNCOMPRESSED"], codecs["CARQUET_COMPRESSION_SNAPPY"]):
+                            for levels in (True, False):
+                                ret, ev, out = LD.trace(P, name, ptype, has_crc, verify, stored, computed, codec, levels=levels)
+                                ntr += 1
+                                sc = "has_crc=%d verify=%d stored=%#x computed=%#x codec=%d levels=%s" % (
+                                    has_crc, verify, stored & 0xFFFFFFFF, computed, codec, levels)
+                                if "fread" in name:
+                                    rd = [e for e in ev if e[0] == "read" and e[1] == base_off + LD.HEADER_SIZE]
+                                    payload = rd[0][2] if rd else None
+                                else:
+                                    payload = ("map", base_off + LD.HEADER_SIZE)
+                                crcs = [(i, e) for i, e in enumerate(ev) if e[0] == "crc"]
+                                cons = [(i, e) for i, e in enumerate(ev) if e[0] in ("decompress", "consume-dict", "consume-page")]
+                                view = out["decoded_values"] == payload and payload is not None
+                                verifying = bool(has_crc and verify)
+                                same = (stored & 0xFFFFFFFF) == (computed & 0xFFFFFFFF)
+                                if verifying:
+                                    if len(crcs) != 1:
+                                        fail("crc-compare", "%s: %d CRC computations" % (sc, len(crcs)))
+                                        continue
+                                    if crcs[0][1][2] != LD.CSIZE:
+                                        fail("crc-size", "%s: CRC over %s bytes, the page stores %d" % (sc, crcs[0][1][2], LD.CSIZE))
+                                    if crcs[0][1][1] != payload:
+                                        fail("crc-bytes", "%s: CRC over %s, the stored page bytes are at %s" % (sc, crcs[0][1][1], payload))
+                                    if cons and cons[0][0] < crcs[0][0]:
+                                        fail("crc-dominates", "%s: %s runs before the CRC" % (sc, cons[0][1][0]))
+                                    if not same:
+                                        if ret == 0:
+                                            fail("crc-compare", "%s: the page is accepted (returns 0)" % sc)
+                                        elif ret != MISMATCH:
+                                            fail("crc-mismatch-return", "%s: returns %s, not CRC_MISMATCH (%d)" % (sc, ret, MISMATCH))
+                                        if cons or view:
+                                            fail("crc-mismatch-clean", "%s: page bytes still reach %s" % (
+                                                sc, [e[0] for _, e in cons] or "the zero-copy view"))
+                                    elif ret != 0 or not (cons or view):
+                                        fail("crc-compare", "%s: a matching page is not accepted (returns %s, consumers %s)" % (
+                                            sc, ret, [e[0] for _, e in cons]))
+                                else:
+                                    # verification is off (option) or impossible (no stored CRC): the page is read
+                                    if ret != 0 or not (cons or view):
+                                        fail("crc-enable", "%s: the page is not read (returns %s)" % (sc, ret))
+                                if ret == 0 and cons:
+                                    first = cons[0][1]
+                                    src_ = first[2] if first[0] == "decompress" else first[1]
+                                    n_ = first[3] if first[0] == "decompress" else first[2]
+                                    if src_ != payload or n_ != LD.CSIZE:
+                                        fail("crc-bytes", "%s: %s reads %s (%s bytes), the checksummed page bytes are %s (%d bytes)" % (
+                                            sc, first[0], src_, n_, payload, LD.CSIZE))
+            nblocks += 1
+            what = {"crc-compare": "%s accepts a page with a stored CRC (verification on) exactly when the CRC of its bytes equals the stored one, as unsigned 32-bit values" % name,
+                    "crc-size": "the CRC is computed over compressed_page_size bytes",
+                    "crc-bytes": "the checksummed bytes are the stored page bytes, the ones handed to the codec / decoder",
+                    "crc-mismatch-return": "a CRC mismatch returns CARQUET_ERROR_CRC_MISMATCH",
+                    "crc-mismatch-clean": "after a mismatch no page byte reaches a consumer (codec, decoder, zero-copy view)",
+                    "crc-dominates": "with has_crc && verify_checksums no consumer of page bytes runs before the CRC comparison",
+                    "crc-enable": "verification is enabled by has_crc && options.verify_checksums (nothing else): otherwise the page is read"}
+            for k_, msg in verd.items():
+                ctx.ob("R6.crc-gate", "%s|%s" % (k_, key0), P.where(f.body), what[k_] + " (abstract execution)", msg is None, msg or "")
+        except (sem.Inconclusive, KeyError) as ex:
+            ctx.inconclusive("R6.crc-gate", "crc-trace|" + key0, P.where(f.body), "abstract execution of %s" % name,
+                             "%s: %s" % (type(ex).__name__, ex))
+    ctx.count("loader_scenarios", ntr)
     ctx.floor("C14 loaders with a CRC block", nblocks, 4)
 
     # ---- writer
